@@ -6,7 +6,9 @@ simulator driven by oracle lists (init delay, accept delays, receive plan); the 
 application (writes into the transmit pipe, drains the receive pipe every cycle).  Per cycle the
 toggle bits, out_string, bytes delivered, bytes taken from the transmit pipe and the chunks the
 terminal accepted/announced are compared with the Lean model `Ebv.Serial` under the same oracles; the
-property text is evaluated on those observations."""
+property text is evaluated on those observations.  Every case ends with a drain phase (no writes,
+terminal without delays, enough cycles for everything outstanding) after which every byte the
+application wrote must have been accepted (a stalled handshake is a failure, not just a shorter run)."""
 import fcntl
 import os
 import random
@@ -21,6 +23,7 @@ THEOREMS = [
     "Ebv.C28.tx_exactly_once_in_order", "Ebv.C28.tx_held_until_accepted", "Ebv.C28.rx_exactly_once_in_order",
     "Ebv.C28.rx_each_cycle", "Ebv.C28.one_toggle_each", "Ebv.C28.one_toggle_each_count", "Ebv.C28.both_directions",
     "Ebv.C28.unpack_pack", "Ebv.C28.readMax_le_cap", "Ebv.C28.inv_final",
+    "Ebv.C28.drain_empties", "Ebv.C28.drain_transfers_everything",
 ]
 TRUSTED = ["hand-written model Ebv.Serial of Serial.update and of one EL6002 channel, tied by exact per-cycle correspondence "
            "(toggle bits, out_string, delivered bytes, chunk read, chunks accepted/announced, current_transmit, unread pipe bytes)",
@@ -453,7 +456,9 @@ LEVEL_TEXT = ("Lean 4 proof over a hand-written model of Serial.update composed 
               "a pending chunk stays in out_string unchanged until it is accepted; in every cycle the bytes written to the application "
               "pipe are exactly the chunk the terminal announced in that cycle (plus the init marker in the connecting cycle); "
               "transmit_request toggles exactly in the cycles a chunk is read and receive_accept exactly in the cycles a chunk is "
-              "announced. Tied to /repo by exact per-cycle correspondence of the real Serial object (real pipes, real PacketVars) "
+              "announced; progress: once initialisation is over and the terminal answers without delay, n+1 further cycles (22n >= "
+              "unread bytes) leave nothing pending and the pipe empty, and the chunks accepted over the whole run are exactly the bytes "
+              "written. Tied to /repo by exact per-cycle correspondence of the real Serial object (real pipes, real PacketVars) "
               "against the model under the same oracle lists, and by regenerating 23p size / read size / init marker into the proofs.")
 LEVEL_NOTE = ("trusted: Lean kernel + propext/Classical.choice/Quot.sound; hand transcription Ebv.Serial validated (not verified) by "
               "differential runs; EL6002 behaviour is modelled from the handshake description (terminal conformance is assumed, not "
